@@ -386,11 +386,13 @@ func checkC14(r *Run) {
 		}
 	}
 	if f := r.fn("store/iavl.getHeight"); f != nil {
-		for _, ret := range Returns(f) {
-			t := P.TermAt(ret.Results[0], ret).String()
-			ok := strings.HasPrefix(t, "phi(") && strings.Contains(t, "param:req.Height") && strings.Contains(t, "store/iavl.Tree.Version(param:tree)")
-			r.Check(ok, "C14-R1", "getHeight", P.InstrPos(ret), t, "getHeight returns "+t)
+		var alts []string
+		for _, a := range P.RetAlternatives(f, 0) {
+			alts = append(alts, a.T.String())
 		}
+		all := strings.Join(alts, " | ")
+		ok := strings.Contains(all, "param:req.Height") && strings.Contains(all, "store/iavl.Tree.Version(param:tree)")
+		r.Check(ok, "C14-R1", "getHeight", P.Pos(f.Pos()), all, "getHeight returns "+all)
 	}
 
 	r.Rule("C14-R2", "multistore proof is built for the same height and store: rootmulti.Query reads the commit info of res.Height (the substore's answer), appends a multistore proof op built from that commit info's StoreInfos keyed by the queried store name; handleQueryStore injects the latest height when none is given and refuses proofs at height <= 1", 6)
